@@ -353,30 +353,49 @@ func notifyNameChange(pn *pathNode) {
 	// parent fid goes with it, to the node above, whose childMu the traversal
 	// still holds while it descends.
 	var held []*fidRef
+
+	// Renamed, and Close when a reference dropped below is the last one, are
+	// backend calls and may panic. One File's panic is not the others'
+	// business: every File below the renamed entry is still told its new
+	// name and every reference taken here is still dropped; the first panic
+	// is raised again when all that is done.
+	var postponed interface{}
+	guard := func(fn func()) {
+		defer func() {
+			if r := recover(); r != nil && postponed == nil {
+				postponed = r
+			}
+		}()
+		fn()
+	}
 	defer func() {
-		// Deferred: if a Renamed panics, the traversal's own locks are released
-		// by the time this runs, and the references still have to go.
+		// Deferred: the traversal's own locks are released by the time this
+		// runs, and the references have to go whatever happened.
 		for _, ref := range held {
-			ref.DecRef()
+			ref := ref
+			guard(func() { ref.DecRef() })
+		}
+		if postponed != nil {
+			panic(postponed)
 		}
 	}()
-	notifyNameChangeHolding(pn, &held)
+	notifyNameChangeHolding(pn, &held, guard)
 }
 
 // notifyNameChangeHolding is the recursion step of notifyNameChange; the
-// references it takes are appended to held.
-func notifyNameChangeHolding(pn *pathNode, held *[]*fidRef) {
+// references it takes are appended to held, backend calls go through guard.
+func notifyNameChangeHolding(pn *pathNode, held *[]*fidRef, guard func(func())) {
 	// Call on all local references.
 	pn.forEachChildRef(func(ref *fidRef, name string) {
 		if ref.TryIncRef() {
 			*held = append(*held, ref)
-			ref.file.Renamed(ref.parent.file, name)
+			guard(func() { ref.file.Renamed(ref.parent.file, name) })
 		}
 	})
 
 	// Call on all subtrees.
 	pn.forEachChildNode(func(pn *pathNode) {
-		notifyNameChangeHolding(pn, held)
+		notifyNameChangeHolding(pn, held, guard)
 	})
 }
 
